@@ -29,7 +29,7 @@ REG = Registry(
 def g_points(draw):
     r = gen.rng(draw)
     F = gen.integer(draw, 1, 6)
-    k = gen.integer(draw, 1, 5)
+    k = gen.choice(draw, [gen.integer(draw, 1, 5), gen.integer(draw, 1, 5), gen.integer(draw, 6, 14)])  # also a dozen centroids
     n = gen.integer(draw, 1, 30 if gen.big() else 14)
     spread = 10.0 ** gen.integer(draw, -3, 3)
     off_mag = gen.choice(draw, [0.0, 1.0, 1e4, 1e8, -1e6])
